@@ -248,6 +248,7 @@ type bprover struct {
 	afMemo     map[atom][]bfact
 	afBusy     map[atom]bool
 	entryFacts []bfact // preconditions established at every call site, callback contracts
+	elemBusy   map[ssa.Value]bool
 }
 
 func newProver(w *World, fn *ssa.Function, mem *memInfo) *bprover {
@@ -1222,6 +1223,10 @@ func (p *bprover) atomFacts1(a atom) []bfact {
 		add(e, ok, "cap>=len")
 		return res
 	}
+	if a.k == aNonNil {
+		res = append(res, p.nilAtomFacts(a)...)
+		return res
+	}
 	if mv, ok := a.v.(*memVal); ok && a.k == aVal && strings.HasPrefix(mv.key, "ML@") && len(mv.siteIns) >= 1 && len(mv.sites) == len(mv.siteIns) {
 		// the length of a coverage table right after  cov.Prune(n)  is at most n
 		// (Prune must be the latest of the possible writes that define this value)
@@ -1649,12 +1654,18 @@ func (p *bprover) condFacts(cond ssa.Value, pol bool, out *[]bfact) {
 				*out = append(*out, bfact{e: nn.addc(-1), why: "nil check"})
 			}
 		case *types.Interface:
+			nn := blatom(atom{aNonNil, p.canonVal(other)})
 			if equalsNil {
+				n, _ := nn.scale(-1)
+				*out = append(*out, bfact{e: n, why: "nil check"})
 				if ex, ok := other.(*ssa.Extract); ok {
 					if call, ok := ex.Tuple.(*ssa.Call); ok {
 						p.contractFacts(call, out)
+						p.nilContractFacts(call, out)
 					}
 				}
+			} else {
+				*out = append(*out, bfact{e: nn.addc(-1), why: "nil check"})
 			}
 		}
 	}
